@@ -207,12 +207,22 @@ func c08xrd(c *Ctx, rule, pkg, stopName string, composite bool) {
 			stops = append(stops, s)
 		}
 	}
-	if len(stops) < 2 {
-		c.R.Unknown(load.FuncName(fn)+": engine.Stop in the deletion branch", c.pos(fn.Pos()), "expected two Stop calls in the WasDeleted branch")
+	if len(stops) < 1 {
+		c.R.Unknown(load.FuncName(fn)+": engine.Stop in the deletion branch", c.pos(fn.Pos()), "expected a Stop call in the WasDeleted branch")
 		return
 	}
 	wcTrue, wcFalse, _ := boolCallEdges(fn, metaWasCreated, argHasType(0, tCRD))
 	icTrue, icFalse, _ := boolCallEdges(fn, metaIsControlledBy, argHasType(0, tCRD))
+	// "not ours": one of the two tests failed, or a boolean and-combining them (`ours := created && controlled`) is false
+	var oursVals []ssa.Value
+	for _, nm := range []string{metaWasCreated, metaIsControlledBy} {
+		for _, x := range calls(fn, nm) {
+			if argHasType(0, tCRD)(cfgx.CallArgs(x)) {
+				oursVals = append(oursVals, x.Value())
+			}
+		}
+	}
+	notOurs := union(wcFalse, icFalse, boolConjFalseEdges(fn, oursVals))
 	if len(wcTrue) == 0 || len(icTrue) == 0 {
 		c.R.Unknown(load.FuncName(fn)+": CRD-is-ours predicate", c.pos(fn.Pos()), "WasCreated(crd)/IsControlledBy(crd, d) tests not found")
 		return
@@ -251,9 +261,9 @@ func c08xrd(c *Ctx, rule, pkg, stopName string, composite bool) {
 	c.requireCross(site(d)+" no-instances", d, empty, "the len(l.Items)==0 edge")
 	c.requireCross(site(d)+" after-stop", d, stopOK, "the success edge of engine.Stop")
 	for _, s := range stops {
-		c.requireCross(site(s)+" not-ours-or-empty", s, union(wcFalse, icFalse, empty), "CRD not ours, or no instances left")
+		c.requireCross(site(s)+" not-ours-or-empty", s, union(notOurs, empty), "CRD not ours, or no instances left")
 	}
-	c.requireCross(site(rm[0])+" not-ours", rm[0], union(wcFalse, icFalse), "WasCreated(crd)==false or IsControlledBy(crd,d)==false")
+	c.requireCross(site(rm[0])+" not-ours", rm[0], notOurs, "WasCreated(crd)==false or IsControlledBy(crd,d)==false")
 	c.requireCross(site(rm[0])+" after-stop", rm[0], stopOK, "the success edge of engine.Stop")
 	c.requireCross(site(rm[0])+" deleted", rm[0], wdTrue, "WasDeleted(d)==true")
 	// instance deletion precedes the emptiness test
